@@ -53,8 +53,10 @@ structure Repl where
   new : Bytes
   count : Option Nat
 
-/-- errno of a failed `os.readlink` -/
-inductive LinkErr | enoent | esrch | einval | enametoolong | eacces
+/-- errno of a failed `os.readlink`: the five the code names, or any other one (`other`: the errno
+    number and the name of the `OSError` subclass CPython raises for it — `NotADirectoryError` for
+    ENOTDIR, plain `OSError` for EIO / ELOOP / EBADF …) -/
+inductive LinkErr | enoent | esrch | einval | enametoolong | eacces | other (en : Nat) (cls : Bytes)
   deriving DecidableEq, Repr
 
 /-- errno of a failed `open()` of an fdinfo / io file (the two the code handles) -/
@@ -129,6 +131,30 @@ structure Cfg where
   /-- `wrap_exceptions`: the ProcessLookupError and FileNotFoundError handlers call
       `self._raise_if_zombie()` before anything else -/
   wrapZombieFirst : Bool
+  /-- round 3: in the listing filter the `path.startswith(absPrefix)` conjunct comes BEFORE
+      `isfile_strict(path)` (so a non-absolute text is never handed to `os.stat`) -/
+  absFirst : Bool
+  /-- the loop iterates over `files[:N]` (`some N`) or over all of `files` (`none`) -/
+  scanLimit : Option Nat
+  /-- `files` is `os.listdir(f"{procfs}/{pid}/fd")`, the loop has no `break` / `return`, every tuple
+      built is appended and `retlist` is what is returned -/
+  loopOverListdir : Bool
+  /-- the two per-descriptor paths are `…/fd/{fd}` and `…/fdinfo/{fd}` -/
+  fdPathsExact : Bool
+  /-- errno numbers on which the `except OSError` handler around `readlink(file)` `continue`s -/
+  linkSkipErrnos : List Nat
+  /-- exception classes, besides FileNotFoundError / ProcessLookupError / PermissionError, named by
+      the handler around `readlink(file)` that sets `hit_enoent` -/
+  linkGoneExtra : List Bytes
+  /-- classes of further handlers around `readlink(file)` that swallow the exception (no `raise`) -/
+  linkSkipClasses : List Bytes
+  /-- like `linkGoneExtra`, for the handler around the fdinfo block -/
+  infoGoneExtra : List Bytes
+  /-- `num_fds` is `len(os.listdir(f"{procfs}/{pid}/fd"))`, possibly capped by `min(…, N)` -/
+  numFdsLenListdir : Bool
+  numFdsCap : Option Nat
+  /-- `io_counters` iterates `for line in f` over the file object returned by `open_binary(fname)` -/
+  ioIterFile : Bool
 
 /-! ### what the methods can raise -/
 
@@ -193,6 +219,8 @@ inductive InfoRes
   | readErr (content : Bytes) (second : Bool) (e : GoneErr)
   /-- the `open` fails with EACCES / EPERM -/
   | openDenied
+  /-- the `open` fails with another errno (EIO, EMFILE, …), raised as class `cls` -/
+  | openOther (en : Nat) (cls : Bytes)
 
 /-- one name returned by `os.listdir("/proc/<pid>/fd")` with what the later accesses answer -/
 structure Entry where
@@ -268,12 +296,14 @@ inductive InfoOut
   | goneAtOpen (e : GoneErr)
   | goneAtRead (e : GoneErr)
   | denied
+  | otherAtOpen (en : Nat) (cls : Bytes)
   | raise (x : Exc)
 
 /-- open, first readline + parse, second readline + parse, in the order the code performs them -/
 def readFdinfo (cfg : Cfg) : InfoRes → InfoOut
   | .openErr e => .goneAtOpen e
   | .openDenied => .denied
+  | .openOther en cls => .otherAtOpen en cls
   | .ok content =>
     match parseFdinfo cfg content with
     | .error x => .raise x
@@ -299,12 +329,35 @@ def deniedLinkStep (cfg : Cfg) : Step :=
   if cfg.linkGoneDenied then .hit
   else if cfg.linkDeniedRaises then .raise .permissionError else .skip
 
+def clsOSError : Bytes := [79, 83, 69, 114, 114, 111, 114]                       -- "OSError"
+
+/-- class names that catch every `OSError`: OSError, EnvironmentError, IOError, Exception, BaseException -/
+def catchAll : List Bytes :=
+  [clsOSError, [69, 110, 118, 105, 114, 111, 110, 109, 101, 110, 116, 69, 114, 114, 111, 114],
+   [73, 79, 69, 114, 114, 111, 114], [69, 120, 99, 101, 112, 116, 105, 111, 110],
+   [66, 97, 115, 101, 69, 120, 99, 101, 112, 116, 105, 111, 110]]
+
+/-- does an `except (classes…)` clause catch an exception of class `cls` (an `OSError` subclass)? -/
+def catches (classes : List Bytes) (cls : Bytes) : Bool :=
+  classes.contains cls || classes.any fun c => catchAll.contains c
+
+/-- `os.readlink` failed with an errno that is not ENOENT / ESRCH / EACCES / EPERM: handled as "gone"
+    if the `hit_enoent` handler names its class, swallowed if another handler names its class or the
+    `except OSError` handler `continue`s on the errno, else re-raised (`raise`) and — no row of
+    `wrap_exceptions` matching — leaves the call as a bare OSError -/
+def otherLinkStep (cfg : Cfg) (en : Nat) (cls : Bytes) : Step :=
+  if catches cfg.linkGoneExtra cls then .hit
+  else if catches cfg.linkSkipClasses cls then .skip
+  else if cfg.linkSkipErrnos.contains en then .skip
+  else .raise .osError
+
 def linkErrStep (cfg : Cfg) : LinkErr → Step
   | .enoent => if cfg.linkGoneEnoent then .hit else .raise .fileNotFound
   | .esrch => if cfg.linkGoneEsrch then .hit else .raise .processLookup
-  | .einval => .skip
-  | .enametoolong => .skip
+  | .einval => otherLinkStep cfg 22 clsOSError             -- errno.EINVAL
+  | .enametoolong => otherLinkStep cfg 36 clsOSError       -- errno.ENAMETOOLONG
   | .eacces => deniedLinkStep cfg
+  | .other en cls => otherLinkStep cfg en cls
 
 def infoErrStep (cfg : Cfg) : GoneErr → Step
   | .enoent => if cfg.infoGoneEnoent then .hit else .raise .fileNotFound
@@ -318,6 +371,7 @@ def infoReadErrStep (cfg : Cfg) : GoneErr → Step
 def scanFile (cfg : Cfg) (e : Entry) (path : Bytes) : Step :=
   match readFdinfo cfg e.info with
   | .denied => if cfg.infoGoneDenied then .hit else .raise .permissionError
+  | .otherAtOpen _ cls => if catches cfg.infoGoneExtra cls then .hit else .raise .osError
   | .goneAtOpen ie => infoErrStep cfg ie
   | .goneAtRead ie => infoReadErrStep cfg ie
   | .raise x => .raise x
@@ -336,8 +390,9 @@ def scanOne (cfg : Cfg) (fs : FS) (e : Entry) : Step :=
     if pyReadlinkDenied cfg fs raw then deniedLinkStep cfg
     else
       let path := pyReadlink cfg fs raw
-      -- `isfile_strict(path)`: os.stat refused → PermissionError (outside every try of the loop)
-      if startsWith cfg.absPrefix path && (cfg.isfileDeniedRaises && fs.denied path) then
+      -- `isfile_strict(path)`: os.stat refused → PermissionError (outside every try of the loop);
+      -- asked only for an absolute path when the `startswith` conjunct comes first
+      if (startsWith cfg.absPrefix path || !cfg.absFirst) && (cfg.isfileDeniedRaises && fs.denied path) then
         .raise .permissionError
       else if startsWith cfg.absPrefix path && fs.isFile path then scanFile cfg e path
       else .skip
@@ -365,7 +420,7 @@ def openFilesBody (cfg : Cfg) (fs : FS) (p : Proc) : Outcome (List POpenFile) :=
   match p.fdDir with
   | .err e => .exc (fileExc e)
   | .ok entries =>
-    match scan cfg fs entries with
+    match scan cfg fs (match cfg.scanLimit with | none => entries | some k => entries.take k) with
     | .error x => .exc x
     | .ok (l, hit) =>
       if hit && cfg.finalAliveCheck && !p.alive then .exc .fileNotFound   -- `os.stat` fails
@@ -378,7 +433,7 @@ def openFiles (cfg : Cfg) (fs : FS) (p : Proc) : Outcome (List POpenFile) :=
 def numFds (cfg : Cfg) (p : Proc) : Outcome Nat :=
   wrap cfg p.alive p.zombie (match p.fdDir with
     | .err e => .exc (fileExc e)
-    | .ok entries => .ok entries.length)
+    | .ok entries => .ok (match cfg.numFdsCap with | none => entries.length | some k => min entries.length k))
 
 /-! ### io_counters: see Model/C14Io.lean (values are CPython `int(bytes)` results, possibly signed) -/
 
